@@ -30,3 +30,14 @@ Theorem C13_leave_joint : forall t c p,
 Proof. exact changer_leave_joint_ok. Qed.
 Print Assumptions C13_leave_joint.
 
+
+(* Restore: the half of the round-trip clause that is a theorem.  That the four sets of the
+   result equal those of the ConfState is decided by the correspondence check (closure of
+   the configuration graph over a bounded id universe, Go and model edge by edge). *)
+Theorem C13_restore_invariants_partial : forall t li cs c p,
+  cc_restore t li cs = inl (c, p) -> cs_voters cs <> [] ->
+  cfg_wf c p /\ c_voters c <> [] /\
+  (cs_voters_outgoing cs <> [] -> c_outgoing c <> [] /\ c_auto_leave c = cs_auto_leave cs) /\
+  (cs_voters_outgoing cs = [] -> c_outgoing c = [] /\ c_learners_next c = [] /\ c_auto_leave c = false).
+Proof. exact restore_ok. Qed.
+Print Assumptions C13_restore_invariants_partial.
